@@ -40,7 +40,9 @@ func Generate(dir, cmd string) (outputs []string, err1 error) {
 		if cmd == "gen" {
 			if stale, err := filepath.Glob(filepath.Join(path, "temp.*.go")); err == nil {
 				for _, f := range stale {
-					os.Remove(f) // nolint: errcheck
+					if err := os.Remove(f); err != nil {
+						return nil, err
+					}
 				}
 			}
 		}
